@@ -33,6 +33,7 @@ def diff_run(o, ctx, lines, oracle=None, nontrivial=None, canon=None, tags=None,
     impl = C.run_sharded(ctx["kimpl"], lines, env=impl_env) if ctx.get("have_impl") else ["NOIMPL"] * len(lines)
     model = C.run_sharded(ctx["kmodel"], lines) if ctx.get("have_model") else ["NOMODEL"] * len(lines)
     canon = canon or (lambda s: s)
+    order_check(o, ctx, lines, impl)
     for i, (c, a, m) in enumerate(zip(lines, impl, model)):
         o.evaluations += 1
         if tags:
@@ -49,6 +50,32 @@ def diff_run(o, ctx, lines, oracle=None, nontrivial=None, canon=None, tags=None,
             if why and len(o.violations) < 50:
                 o.violations.append({"case": c, "impl": a, "model": m, "why": why})
     return impl, model
+
+
+PURE_DOMAINS = ("REQ ", "RESP ", "HDR ", "PRINT ", "BODY ", "ROUTE ", "DATE ", "STATUS ")
+
+
+def order_check(o, ctx, lines, impl):
+    """State carried over between calls (a thread-local scratch buffer, a cache, a grow-only vector) shows as an answer that depends on
+    what ran before on the same thread.  The cases of the stateless domains were answered in generation order, split over several
+    processes; a sample of them is answered again by ONE process in reverse order, and every answer must be the same."""
+    if not ctx.get("have_impl"):
+        return
+    idx = [i for i, l in enumerate(lines) if l.startswith(PURE_DOMAINS)]
+    if len(idx) < 2:
+        return
+    import random
+    r = random.Random(len(lines) * 7919 + o.seed)
+    sample = idx if len(idx) <= 1500 else r.sample(idx, 1500)
+    sample.sort(reverse=True)
+    again = C.run_sharded(ctx["kimpl"], [lines[i] for i in sample], shards=1)
+    bad = 0
+    for i, a in zip(sample, again):
+        if a != impl[i]:
+            bad += 1
+            if len(o.violations) < 50:
+                o.violations.append({"case": lines[i], "impl": a[:300], "why": "the answer depends on what ran before on the same thread: %s when the cases run in generation order, %s when a sample runs in reverse order in one process" % (impl[i][:80], a[:80])})
+    o.extra["order_independence_rechecked"] = o.extra.get("order_independence_rechecked", 0) + len(sample)
 
 
 def shrink_bytes(data: bytes, still_fails, budget=300):
